@@ -36,15 +36,9 @@ func (r *RAT[K, V]) Find(k K, predicate func(V) bool) (V, bool) {
 		return zero, false
 	}
 
-	for i := idx; i >= 0; i-- {
-		v := r.values[k][idx]
-		if predicate(v) {
-			return v, true
-		}
-	}
-
-	for i := r.length - 1; i > idx; i-- {
-		v := r.values[k][idx]
+	// From the youngest slot backwards, over the slots that hold a value
+	for j := 0; j < r.written[k]; j++ {
+		v := r.values[k][(idx-j+r.length)%r.length]
 		if predicate(v) {
 			return v, true
 		}
